@@ -270,6 +270,10 @@ def fam_ewise(rng, n, tier, mode="exact", grads=False):
     cases = []
     if tier == "thorough":
         shapes = all_shapes(4, 3)
+        if grads:
+            # the forward-mode reference costs (leaf elements) x (program): keep the exhaustive
+            # gradient grid to rank <= 3 size <= 3 and rank 4 size <= 2
+            shapes = all_shapes(3, 3) + [x for x in all_shapes(4, 2) if len(x) == 4]
     else:
         shapes = all_shapes(3, 2)
     for a in shapes:
@@ -296,6 +300,9 @@ def fam_ewise(rng, n, tier, mode="exact", grads=False):
         ok = compat(a, b) is not None
         if grads and not ok:
             continue
+        if grads and max(prod(a), prod(b)) > 72:
+            # see above: large operands only in the value families
+            a, b = [min(d, 2) for d in a], [min(d, 2) for d in b]
         ops = [rng.choice(["mul", "add", "div", "sub"])] if grads else (EW_OPS if ok else [rng.choice(EW_OPS)])
         cases.append(Case(ewise_case(rng, a, b, mode, ops, grads, rng.choice([1, 2, 3])),
                           ("r", tuple(ops), tuple(a), tuple(b), grads),
